@@ -428,6 +428,68 @@ theorem openBase_safe (env : Env) (h : ProcH) (base : Procfs.Base) (hh : 0 ≤ h
     · intro e _; exact FdOk_err e
   · intro e _; exact FdOk_err e
 
+theorem lookupVerified_safe (env : Env) (h : ProcH) (basedir : Fd) (subpath : Bytes) (oflags : Nat)
+    (hb : 0 ≤ basedir) : Safe (Disc b) (Procfs.lookupVerified env h basedir subpath oflags) FdOk := by
+  unfold Procfs.lookupVerified
+  apply Safe.mbind (Q' := FdOk) (resolve_safe env h.emulated basedir subpath _ 0 hb)
+  · intro fd hfd
+    have hf : 0 ≤ fd := hfd fd rfl
+    apply Safe.mbind (Q' := fun _ => True)
+      (onErr_any (verifySameProcfsMnt_safe h fd hf) (close_safe _))
+    · intro _ _ fd' h'; cases h'; exact hf
+    · intro e _; exact FdOk_err e
+  · intro e _; exact FdOk_err e
+
+theorem retryUnmasked_safe (env : Env) (again : ProcH → M Fd) (basedir : Fd) (e : Err)
+    (hagain : ∀ h2, 0 ≤ h2.fd → Safe (Disc b) (again h2) FdOk) :
+    Safe (Disc b) (Procfs.retryUnmasked env again basedir e) FdOk := by
+  unfold Procfs.retryUnmasked
+  apply Safe.mbind (Q' := fun r => ∀ x, r = .ok x → ProcHOk x)
+  · apply Safe.try' (newUnmasked_safe env)
+    · intro a ha x hx; cases hx; exact ha
+    · intro e' _; exact ⟨fun x hx => by cases hx; exact ProcHOk_err e', fun x hx => by cases hx⟩
+  · intro r hr
+    split
+    · apply Safe.mbind (Q' := fun _ => True) (lift_any (close_safe _))
+      · intro _ _; exact FdOk_err _
+      · intro e _; exact FdOk_err e
+    · rename_i h2
+      have h2ok : 0 ≤ h2.fd := hr _ rfl h2 rfl
+      split
+      · apply Safe.mbind (Q' := fun _ => True) (lift_any (closeAll_safe _))
+        · intro _ _; exact FdOk_err _
+        · intro e _; exact FdOk_err e
+      · apply Safe.mbind (Q' := fun r => ∀ x, r = .ok x → FdOk x) (try_fd (hagain h2 h2ok))
+        · intro r2 hr2
+          apply Safe.mbind (Q' := fun _ => True) (lift_any (closeAll_safe _))
+          · intro _ _; exact Safe.ofExcept (hr2 _ rfl)
+          · intro e _; exact FdOk_err e
+        · intro e _; exact FdOk_err e
+  · intro e _; exact FdOk_err e
+
+theorem openStep_safe (env : Env) (again : ProcH → Nat → M Fd) (h : ProcH) (base : Procfs.Base)
+    (subpath : Bytes) (oflags : Nat) (hh : 0 ≤ h.fd)
+    (hagain : ∀ h2 fl, 0 ≤ h2.fd → Safe (Disc b) (again h2 fl) FdOk) :
+    Safe (Disc b) (Procfs.openStep env again h base subpath oflags) FdOk := by
+  unfold Procfs.openStep
+  apply Safe.mbind (Q' := FdOk) (openBase_safe env h base hh)
+  · intro basedir hbd
+    have hb : 0 ≤ basedir := hbd basedir rfl
+    apply Safe.mbind (Q' := fun r => ∀ x, r = .ok x → FdOk x)
+      (try_fd (lookupVerified_safe env h basedir subpath _ hb))
+    · intro first hfirst'
+      split
+      · apply Safe.mbind (Q' := fun _ => True) (lift_any (close_safe _))
+        · intro _ _; exact hfirst' _ rfl
+        · intro e _; exact FdOk_err e
+      · split
+        · exact retryUnmasked_safe env _ basedir _ (fun h2 h2ok => hagain h2 _ h2ok)
+        · apply Safe.mbind (Q' := fun _ => True) (lift_any (close_safe _))
+          · intro _ _; exact FdOk_err _
+          · intro e _; exact FdOk_err e
+    · intro e _; exact FdOk_err e
+  · intro e _; exact FdOk_err e
+
 theorem openH_safe (env : Env) (fuel : Nat) : ∀ (h : ProcH) (base : Procfs.Base) (subpath : Bytes)
     (oflags : Nat), 0 ≤ h.fd → Safe (Disc b) (Procfs.openH env fuel h base subpath oflags) FdOk := by
   induction fuel with
@@ -435,58 +497,7 @@ theorem openH_safe (env : Env) (fuel : Nat) : ∀ (h : ProcH) (base : Procfs.Bas
   | succ n ih =>
     intro h base subpath oflags hh
     unfold Procfs.openH
-    apply Safe.mbind (Q' := FdOk) (openBase_safe env h base hh)
-    · intro basedir hbd
-      have hb : 0 ≤ basedir := hbd basedir rfl
-      have hfirst : Safe (Disc b) (do
-          let fd ← Procfs.resolve env h.emulated basedir subpath (oflags ||| O_NOFOLLOW) 0
-          (Procfs.verifySameProcfsMnt h fd).onErr (Sys.close fd)
-          pure fd : M Fd) FdOk := by
-        apply Safe.mbind (Q' := FdOk) (resolve_safe env h.emulated basedir subpath _ 0 hb)
-        · intro fd hfd
-          have hf : 0 ≤ fd := hfd fd rfl
-          apply Safe.mbind (Q' := fun _ => True)
-            (onErr_any (verifySameProcfsMnt_safe h fd hf) (close_safe _))
-          · intro _ _ fd' h'; cases h'; exact hf
-          · intro e _; exact FdOk_err e
-        · intro e _; exact FdOk_err e
-      apply Safe.mbind (Q' := fun r => ∀ x, r = .ok x → FdOk x) (try_fd hfirst)
-      · intro first hfirst'
-        split
-        · rename_i fd
-          apply Safe.mbind (Q' := fun _ => True) (lift_any (close_safe _))
-          · intro _ _; exact hfirst' _ rfl
-          · intro e _; exact FdOk_err e
-        · rename_i e
-          split
-          · apply Safe.mbind (Q' := fun r => ∀ x, r = .ok x → ProcHOk x)
-            · apply Safe.try' (newUnmasked_safe env)
-              · intro a ha x hx; cases hx; exact ha
-              · intro e' _; exact ⟨fun x hx => by cases hx; exact ProcHOk_err e', fun x hx => by cases hx⟩
-            · intro r hr
-              split
-              · apply Safe.mbind (Q' := fun _ => True) (lift_any (close_safe _))
-                · intro _ _; exact FdOk_err _
-                · intro e _; exact FdOk_err e
-              · rename_i h2
-                have h2ok : 0 ≤ h2.fd := hr _ rfl h2 rfl
-                split
-                · apply Safe.mbind (Q' := fun _ => True) (lift_any (closeAll_safe _))
-                  · intro _ _; exact FdOk_err _
-                  · intro e _; exact FdOk_err e
-                · apply Safe.mbind (Q' := fun r => ∀ x, r = .ok x → FdOk x)
-                    (try_fd (ih h2 base subpath _ h2ok))
-                  · intro r2 hr2
-                    apply Safe.mbind (Q' := fun _ => True) (lift_any (closeAll_safe _))
-                    · intro _ _; exact Safe.ofExcept (hr2 _ rfl)
-                    · intro e _; exact FdOk_err e
-                  · intro e _; exact FdOk_err e
-            · intro e _; exact FdOk_err e
-          · apply Safe.mbind (Q' := fun _ => True) (lift_any (close_safe _))
-            · intro _ _; exact FdOk_err _
-            · intro e _; exact FdOk_err e
-      · intro e _; exact FdOk_err e
-    · intro e _; exact FdOk_err e
+    exact openStep_safe env _ h base subpath oflags hh (fun h2 fl h2ok => ih h2 base subpath fl h2ok)
 
 theorem readlinkH_safe (env : Env) (h : ProcH) (base : Procfs.Base) (subpath : Bytes) (hh : 0 ≤ h.fd) :
     Safe (Disc b) (Procfs.readlinkH env h base subpath) (fun _ => True) := by
